@@ -536,6 +536,20 @@ class Interp:
                     return st.fresh_int(w, False, op)
                 bu = Lin(1 << cb)
                 op = 'udiv'
+            if au is not None and bu is not None and bu.is_const() and bu.c > 0:
+                # exact Euclidean relation a = b*q + r, shared by udiv and urem of the same operands
+                mk = ('udivrem', w, au.key(), bu.c)
+                q = st.conv.get(mk)
+                if q is None:
+                    q = st.fresh_int(w, False, 'quot').u
+                    st.cons.add_le(q * bu.c, au)
+                    st.cons.add_le(au, q * bu.c + (bu.c - 1))
+                    st.conv[mk] = q
+                if op == 'udiv':
+                    return IntVal(w, q, None)
+                if st.cons.entails_le(au, bu.c - 1):
+                    return IntVal(w, au, None)
+                return IntVal(w, au - q * bu.c, None)
             r = st.fresh_int(w, False, op)
             if au is None or bu is None:
                 return r
